@@ -22,6 +22,9 @@ const (
 	nEdgeKinds
 )
 
+// c09Reverse: render the properties of type 0 in reverse order (set per path by ZZC09Graph).
+var c09Reverse bool
+
 func c09Name(i int) string { return "@T" + string([]byte{byte('0' + i)}) }
 
 // c09TypeText renders type i as an object whose properties are its outgoing edges.
@@ -35,7 +38,11 @@ func c09TypeTextDup(i, n int, edge [][]int, dup bool) string {
 		props = append(props, "\"q1\": "+c09Name(1))
 		anns = append(anns, "")
 	}
-	for j := 0; j < n; j++ {
+	for jj := 0; jj < n; jj++ {
+		j := jj
+		if c09Reverse && i == 0 {
+			j = n - 1 - jj // the properties of type 0 in descending order of the type they refer to
+		}
 		k := edge[i][j]
 		if k == eNone {
 			continue
@@ -84,25 +91,56 @@ func ZZC09Graph() {
 			if nonNone >= maxEdges {
 				continue
 			}
-			edge[i][j] = v.Choose(0, nEdgeKinds-1)
+			if v.Param("edgeset", 0) == 1 {
+				// a smaller alphabet (none, required, or with a terminating member) lets 4 edges over 3 types fit the quick tier
+				edge[i][j] = []int{eNone, eReq, eOrLeaf}[v.Choose(0, 2)]
+			} else {
+				edge[i][j] = v.Choose(0, nEdgeKinds-1)
+			}
 			if edge[i][j] != eNone {
 				nonNone++
 			}
 		}
 	}
+	c09Reverse = v.Param("reverse", 0) != 0 && v.Choose(0, 1) == 1
 	dup := v.Param("dup", 0) != 0 && n > 1 && v.Choose(0, 1) == 1
 	root := jschema.New("root", "@T0")
+	if v.Param("inlineroot", 0) != 0 {
+		// the checked schema is the body of type 0 itself (not a reference to it)
+		root = jschema.New("root", c09TypeTextDup(0, n, edge, dup))
+	}
 	desc := ""
+	var names []string
+	var schemas []*jschema.Schema
+	add := func(name, text string) {
+		sc := jschema.New(name, text)
+		names = append(names, name)
+		schemas = append(schemas, sc)
+	}
 	for i := 0; i < n; i++ {
 		t := c09TypeTextDup(i, n, edge, dup)
 		desc += c09Name(i) + "=" + t + " "
-		v.Assert(root.AddType(c09Name(i), jschema.New(c09Name(i), t)) == nil, "C09/addtype-failed")
+		add(c09Name(i), t)
 	}
-	v.Assert(root.AddType("@leaf", jschema.New("@leaf", "1")) == nil, "C09/addtype-failed")
+	add("@leaf", "1")
 	for j := 0; j < n; j++ {
 		// @loopJ is an alias object that requires @TJ again: the second, equally looping or-member
 		nm := "@loop" + string([]byte{byte('0' + j)})
-		v.Assert(root.AddType(nm, jschema.New(nm, "{\n  \"again\": "+c09Name(j)+"\n}")) == nil, "C09/addtype-failed")
+		add(nm, "{\n  \"again\": "+c09Name(j)+"\n}")
+	}
+	if v.Param("deep", 0) != 0 {
+		// every type is also registered on every type's own schema (a caller that keeps one registry for
+		// all its schemas): the recursion checker then follows references out of added types as well
+		for i := range schemas {
+			for j := range schemas {
+				if i != j {
+					v.Assert(schemas[i].AddType(names[j], schemas[j]) == nil, "C09/addtype-failed")
+				}
+			}
+		}
+	}
+	for i := range schemas {
+		v.Assert(root.AddType(names[i], schemas[i]) == nil, "C09/addtype-failed")
 	}
 	v.Observe("graph", desc)
 	// reference: least fixpoint "has a finite inhabitant" - only required edges matter
@@ -348,8 +386,11 @@ func ZZC09OrTypes() {
 		}
 		return c09Name(j)
 	}
-	root := jschema.New("root", "@T0")
-	desc := ""
+	rootKind := v.Choose(0, 3)
+	// the root refers to type 0 by a shortcut, through a type rule or through an or rule on a literal example
+	rootText := []string{"@T0", "7 // {type: \"@T0\"}", "7 // {or: [\"@T0\", \"@leaf\"]}", "{\n  \"x\": 7 // {type: \"@T0\"}\n}"}[rootKind]
+	root := jschema.New("root", rootText)
+	desc := "root=" + rootText + " "
 	for i := 0; i < n; i++ {
 		t := ""
 		for j, m := range members[i] {
@@ -401,8 +442,9 @@ func ZZC09OrTypes() {
 		}
 	}
 	v.Observe("inhabitation", unin)
+	rootInh := inh[0] || rootKind == 2
 	cerr := root.Check()
-	if !inh[0] {
+	if !rootInh {
 		v.Reach("C09/or-types-infinite")
 		v.Assert(cerr != nil, "C09/infinite-recursion-accepted")
 		return
@@ -412,8 +454,12 @@ func ZZC09OrTypes() {
 	if cerr != nil {
 		return
 	}
-	v.Assert(root.Validate(json.New("d", "5")) == nil, "C09/or-types-leaf-value-rejected")
-	v.Assert(root.Validate(json.New("d", `"s"`)) != nil, "C09/or-types-foreign-value-accepted")
+	good, bad := "5", `"s"`
+	if rootKind == 3 {
+		good, bad = `{"x":5}`, `{"x":"s"}`
+	}
+	v.Assert(root.Validate(json.New("d", good)) == nil, "C09/or-types-leaf-value-rejected")
+	v.Assert(root.Validate(json.New("d", bad)) != nil, "C09/or-types-foreign-value-accepted")
 	ex, eerr := root.Example()
 	v.Assert(eerr == nil, "C09/example-fails-on-accepted-graph")
 	if eerr == nil {
